@@ -29,13 +29,17 @@ type ResetProcessor struct {
 	target       interface{}
 	paths        []tree.Path
 	visitedNodes map[*yaml.Node][]string
+	// resolving holds the collection nodes currently being expanded (the ancestors of the node at hand)
+	resolving map[*yaml.Node]bool
 }
 
 // UnmarshalYAML implement yaml.Unmarshaler
 func (p *ResetProcessor) UnmarshalYAML(value *yaml.Node) error {
 	p.visitedNodes = make(map[*yaml.Node][]string)
+	p.resolving = make(map[*yaml.Node]bool)
 	resolved, err := p.resolveReset(value, tree.NewPath())
 	p.visitedNodes = nil
+	p.resolving = nil
 	if err != nil {
 		return err
 	}
@@ -70,6 +74,10 @@ func (p *ResetProcessor) resolveReset(node *yaml.Node, path tree.Path) (*yaml.No
 	if node.Tag == "!override" {
 		p.paths = append(p.paths, path)
 		return node, nil
+	}
+	if node.Kind == yaml.SequenceNode || node.Kind == yaml.MappingNode {
+		p.resolving[node] = true
+		defer delete(p.resolving, node)
 	}
 	switch node.Kind {
 	case yaml.SequenceNode:
@@ -153,8 +161,12 @@ func (p *ResetProcessor) checkForCycle(node *yaml.Node, path tree.Path) error {
 	pathStr := path.String()
 
 	for _, prevPath := range paths {
-		// If we're visiting the exact same path, it's not a cycle
+		// If we're visiting the exact same path, it's not a cycle, unless the node is still being
+		// expanded: `x: &a {<<: *a}` merges a node into itself (the merge key is not part of the path)
 		if pathStr == prevPath {
+			if p.resolving[node] {
+				return fmt.Errorf("cycle detected: node at path %s references itself", pathStr)
+			}
 			continue
 		}
 
